@@ -3,6 +3,7 @@ import logging
 import weakref
 import trio
 import functools
+import inspect
 import threading
 
 from types import ModuleType
@@ -72,6 +73,27 @@ class ServiceUnit(object):
         )
 
 
+class _ConstructorSignature(object):
+    """
+    Class attribute ``__signature__`` of a service: the signature of its constructor
+
+    The ``__new__`` that registers a service accepts anything. Without this, tools that
+    introspect the class - :py:func:`inspect.signature`, and with it the argument check of
+    :py:class:`~cobald.interfaces.Partial` - would see ``(*args, **kwargs)``.
+    """
+
+    def __init__(self, new):
+        self._new = new
+
+    def __get__(self, instance, owner):
+        if instance is not None:
+            raise AttributeError("__signature__")
+        constructor = owner.__init__ if self._new is object.__new__ else self._new
+        signature = inspect.signature(constructor)
+        # drop ``self`` / ``cls``
+        return signature.replace(parameters=list(signature.parameters.values())[1:])
+
+
 def service(flavour):
     r"""
     Mark a class as implementing a Service
@@ -99,6 +121,8 @@ def service(flavour):
             return self
 
         raw_cls.__new__ = __new_service__
+        if "__signature__" not in raw_cls.__dict__:
+            raw_cls.__signature__ = _ConstructorSignature(__new__)
         if raw_cls.run.__doc__ is None:
             raw_cls.run.__doc__ = "Service entry point"
         return raw_cls
